@@ -749,6 +749,11 @@ func (s *Server) processPacket(cl *Client, pk packets.Packet) error {
 	if cl.State.Inflight.Len() > 0 && atomic.LoadInt32(&cl.State.Inflight.sendQuota) > 0 {
 		next, ok := cl.State.Inflight.NextImmediate()
 		if ok {
+			if next.Expiry < -1 {
+				next.Expiry = -next.Expiry // restore the expiry time hidden behind the deferred marker
+			} else {
+				next.Expiry = 0
+			}
 			_ = cl.WritePacket(next)
 			if ok := cl.State.Inflight.Delete(next.PacketID); ok {
 				atomic.AddInt64(&s.Info.Inflight, -1)
@@ -1135,7 +1140,11 @@ func (s *Server) publishToClient(cl *Client, sub packets.Subscription, pk packet
 		}
 
 		if sentQuota == 0 && atomic.LoadInt32(&cl.State.Inflight.maximumSendQuota) > 0 {
-			out.Expiry = -1
+			if out.Expiry > 0 {
+				out.Expiry = -out.Expiry // deferred marker (negative) that keeps the expiry time
+			} else {
+				out.Expiry = -1
+			}
 			cl.State.Inflight.Set(out)
 			return out, nil
 		}
